@@ -1,5 +1,6 @@
-"""C26 (partial) -- EofLayout.tla: the EOF container grammar and a decidable fragment of EOF validation,
-replayed on revm's Eof::decode / decode_dangling / encode_slow, validate_eof and the real Evm under OSAKA."""
+"""C26 (partial) -- EofLayout.tla: the EOF container grammar and EOF code validation (control flow included) for
+containers without sub-containers, replayed on revm's Eof::decode / decode_dangling / encode_slow, validate_eof
+and the real Evm under OSAKA."""
 import json
 import os
 
@@ -8,15 +9,16 @@ import vf
 READY = True
 SERVES = {
     "C26": dict(
-        technique="TLA+ specification EofLayout.tla (EOF container grammar of EIP-3540/4750/7480/7620 as a left-to-right recogniser plus Encode, and EOF validation stated exactly for straight-line code without sub-containers) model-checked by TLC; every byte string it enumerates (encodings of small abstract containers, single-field corruptions, re-ordered / re-sized headers, every proper prefix) is replayed on revm (spec->impl conformance): Eof::decode / Eof::decode_dangling / encode_slow / raw / Bytecode::new_raw_checked, validate_raw_eof / validate_eof / validate_eof_inner, and -- for every enumerated container the validator accepts -- real transactions through revm::Evm under OSAKA (call to an account holding the container; creation transaction carrying it)",
-        level="PARTIAL. Decided by the specification: (1) membership of each enumerated byte string in the container grammar (decode succeeds iff the grammar says so; the decoded types / code / sub-container / data sections, declared data size and total size equal what the grammar reads; same for the 'container followed by other bytes' reading used by creation transactions); TLC checks as lemmas on every case that the grammar is canonical (any string in the language re-encodes to itself), that well-formed containers are recovered from their encoding, that each listed corruption leaves the language, the prefix and trailing-byte rules; (2) the validator's verdict for containers of a fragment (no sub-containers; straight-line code over STOP ADD POP PUSH0 PUSH1 DUP1 ADDRESS CALLF RETF JUMPF RETURN REVERT INVALID plus unassigned/removed opcodes): first-section type, truncated immediates, undefined opcodes, terminating last instruction, unreachable instructions, stack underflow, CALLF/JUMPF/RETF typing, max_stack_height, non-returning flag, unreachable sections, truncated data, STOP/RETURN in initcode -- must-accept and must-reject, both for the initcode and the runtime reading. Observed directly on every case (no expectation needed): a decoded container re-encodes (encode_slow, raw) to exactly the input; decoding, validation and execution never panic (catch_unwind); validation gives the same verdict on repeated calls and through both entry points. NOT decided: the validator's accept set outside the fragment (RJUMP*, DATALOADN, EOFCREATE/RETURNCONTRACT, sub-container kinds) -- there the verdict is taken from revm, and 'validation accepts => execution reaches no path that assumes a valid container' is EXERCISED on the small enumerated/planned containers that revm accepts (including factory/initcode/runtime nests two levels deep), not proved for all containers.",
-        note="Trusted: EofLayout.tla as the statement of the grammar and of the fragment's rules; the adapter harness/src/bin/eof.rs (reports byte-equality of re-encoding, verdict stability and panics as a list of breaches, expected empty). The layout is the one of the EIP revision this revm implements: 2-byte container sizes and kind_data = 0x04 (the final EIP-3540 text uses 4-byte container sizes and 0xFF), stated in the spec. A string whose only defect is inputs > max_stack_height may be rejected by decoding (revm) or by validation (EIP-5450): either is accepted for decoding, rejection is required of validation. Containers are small (<= 2 code sections of <= 4 bytes, <= 2 sub-containers, <= 2 data bytes) plus a handful of planned nests; out-of-bounds reads that do not panic are invisible; execution is panic-freedom only (results are not predicted).",
-        ref="DESIGN.md section 4 (C26, 'possible later extensions'); spec/EofLayout.tla header"),
+        technique="TLA+ specification EofLayout.tla (EOF container grammar of EIP-3540/4750/7480/7620 as a left-to-right recogniser plus Encode; EOF code validation of EIP-3670/4200/4750/6206/5450/663/7480 stated for every container without sub-containers: instruction boundaries, relative-jump targets, the one-pass [min,max] stack-height analysis with forward merges and exact backward jumps, CALLF/JUMPF/RETF typing, DUPN/SWAPN/EXCHANGE/DATALOADN immediates, max_stack_height, reachability of instructions and sections) model-checked by TLC; every byte string it enumerates is replayed on revm (spec->impl conformance): Eof::decode / Eof::decode_dangling / encode_slow / raw / Bytecode::new_raw_checked, validate_raw_eof / validate_eof / validate_eof_inner, and -- for every enumerated container the validator accepts -- real transactions through revm::Evm under OSAKA (call to an account holding the container; creation transaction carrying it) with call data chosen so that conditional jumps go both ways",
+        level="PARTIAL. Decided by the specification: (1) membership of each enumerated byte string in the container grammar (decode succeeds iff the grammar says so; decoded sections, declared data size and total size equal what the grammar reads; same for the 'container followed by other bytes' reading); TLC checks as lemmas on every case that the grammar is canonical, that well-formed containers are recovered from their encoding, that each listed corruption leaves the language, the prefix and trailing-byte rules; (2) the validator's verdict (accept / reject, for the initcode and the runtime reading) for EVERY enumerated container without sub-containers: first-section type, undefined / removed opcodes (the whole 256-entry table with operand counts), truncated immediates and RJUMPV tables, RJUMP / RJUMPI / RJUMPV targets (inside the section, an instruction start, never an immediate -- including every byte of an RJUMPV table and its max_index byte), EIP-5450 stack validation with control flow (per-instruction [min,max] bounds, forward merge, exact backward jumps, unreachable-by-forward-traversal code, underflow on min, call-stack limit on max, last instruction terminating or RJUMP), DUPN / SWAPN / EXCHANGE / DATALOADN requirements, CALLF/JUMPF/RETF typing, declared max_stack_height = computed (every declared value from 0 to the number of pushing bytes is enumerated: exactly one is accepted), non-returning flag, unreachable sections, truncated data, STOP/RETURN in initcode. TLC checks on every case: accepted => every jump target is an instruction start; accepted => every instruction is reachable going forward only and the last one does not fall off; accepted => computed maximum = declared; accepted => EVERY execution path of the section (each jump taken either way) stays on instruction starts, finds its operands and stays within the recorded bounds; the straight-line reading of the rules agrees with the general pass. Observed directly on every case (no expectation needed): a decoded container re-encodes to exactly the input; decoding, validation and execution never panic (catch_unwind; the build asserts the instruction pointer stays inside the code buffer on every step); validation gives the same verdict on repeated calls and through both entry points; an accepted container never halts with StackUnderflow / OpcodeNotFound / InvalidJump / NotActivated. NOT decided: containers WITH sub-containers (EOFCREATE / RETURNCONTRACT kinds, EIP-7620) -- there the verdict is taken from revm, and 'validation accepts => execution reaches no path that assumes a valid container' is EXERCISED on the planned factory/initcode/runtime nests revm accepts, not proved for all containers.",
+        note="Trusted: EofLayout.tla as the statement of the grammar and of the validation rules; the adapter harness/src/bin/eof.rs (reports byte-equality of re-encoding, verdict stability, panics and impossible halts as a list of breaches, expected empty). The layout and the types entry are those of the EIP revision this revm implements: 2-byte container sizes, kind_data = 0x04, max_stack_HEIGHT (the final texts use 4-byte sizes, 0xFF and max_stack_increase), JUMPDEST kept as a no-op, RETURNCONTRACT = 0xEE; stated in the spec. Which rule is reported for a rejected container is not compared (accept / reject only). A string whose only defect is inputs > max_stack_height may be rejected by decoding (revm) or by validation (EIP-5450): either is accepted for decoding, rejection is required of validation. Universe of code with control flow: every byte string of <= 5 bytes (quick: 9-letter alphabet STOP CALLDATASIZE POP RJUMP RJUMPI RJUMPV 01 FF FD; thorough: 13 letters adding 02 FC CALLF DUPN, and <= 6 bytes over the 9 letters) as the single code section; ~19 base programs containing every immediate-carrying instruction, RJUMPV tables of 1-3 entries and loops (thorough: also every valid string of <= 4 bytes), each PROBED by a conditional jump (RJUMPI and RJUMPV, placed in front and before the last byte) aimed at every byte of the code, one before and one behind; every byte value 0..255 as an instruction behind enough / one too few operands; DUPN/SWAPN/EXCHANGE immediates x operand counts; DATALOADN offsets x data sizes; the two-section run decides CALLF/JUMPF/RETF typing. Jumps spanning more than a few bytes, tables of more than 3 entries, heights near 1024 and sections longer than ~35 bytes are not enumerated. Execution is judged for panics / impossible halts only (results are not predicted).",
+        ref="DESIGN.md section 4 (C26); spec/EofLayout.tla header and PART 2"),
 }
 
 INV = ["RoundTrip", "Canonical", "UniverseWF", "NotWFRejected", "AbnormalNotWF", "CorruptionsLeaveLanguage", "PrefixRule",
        "TrailingRule", "DanglingSplits", "DanglingOfFilled", "PlainAccepted", "InitImpliesRuntime",
-       "AcceptedHasMaxStack"]
+       "AcceptedHasMaxStack", "SectionLemmas"]
+INV_FLOW = ["SectionLemmas", "OnlyOneHeight", "FlowDenotes"]
 
 
 def T(i, o, m):
@@ -63,6 +65,75 @@ IN         <<pRT, pRTdata, pRTfull, pINIT(pRT), pINITaux(pRT), pINITaux(pRTdata)
 """
 
 
+NOFLOW = dict(FlowAlpha="{}", FlowN="0", FlowGiven="{}", ProbeBases="{}", Pusher="54")
+
+# ---- the flow run
+P = 0x36   # CALLDATASIZE: the pushed condition depends on the call data, so executions take both branches
+
+
+def cont(code, types=None, more_codes=(), data=(), dsize=None):
+    """TLA+ text of a container whose first section is `code` (max_stack_height placeholder 0)."""
+    ts = [T(0, NR, 0)] + list(types or [])
+    cs = [seq(code)] + [seq(c) for c in more_codes]
+    return "Cont(<<%s>>, <<%s>>, <<>>, %s, %d)" % (", ".join(ts), ", ".join(cs), seq(data),
+                                                      len(data) if dsize is None else dsize)
+
+
+# Programs that are valid as they stand; every byte of each gets a forward and a backward probe.
+# Between them they contain every instruction that carries an immediate (except the two that need a
+# sub-container), RJUMPV tables of 1, 2 and 3 entries, table / immediate bytes that are themselves
+# dangerous opcodes (0xE3 CALLF, 0xE5 JUMPF, 0xE4 RETF, 0xE0 RJUMP), and loops.
+BASES = [
+    cont([0x00]),
+    cont([P, 0x50, 0x00]),
+    cont([0x60, 0xE3, 0x50, 0x00]),                              # PUSH1 e3
+    cont([0x61, 0xE5, 0xE4, 0x50, 0x00]),                        # PUSH2 e5e4
+    cont([0xE0, 0x00, 0x00, 0x00]),                              # RJUMP +0
+    cont([P, 0xE1, 0x00, 0x01, 0x00, 0x00]),                     # RJUMPI +1
+    cont([P, 0xE2, 0x00, 0x00, 0x00, 0x00]),                     # RJUMPV [0]
+    cont([P, 0xE2, 0x01, 0x00, 0x00, 0x00, 0x01, 0x00, 0x00]),   # RJUMPV [0, 1]
+    cont([P, 0xE2, 0x02, 0x00, 0x00, 0x00, 0x00, 0x00, 0x00, 0x00]),   # RJUMPV [0, 0, 0]
+    cont([0x5B] * 23 + [P, 0xE2, 0x00, 0xFF, 0xE4, 0x00]),       # NOPs, RJUMPV [-28] (loop): last table byte = RETF
+    cont([0xE0, 0xFF, 0xFD]),                                    # RJUMP -3 (loop)
+    cont([0x5B, 0xE0, 0xFF, 0xFC]),                              # NOP RJUMP -4
+    cont([P, 0xE1, 0xFF, 0xFC, 0x00]),                           # loop while the condition holds
+    cont([P, 0xE6, 0x00, 0x50, 0x50, 0x00]),                     # DUPN 0
+    cont([P, P, 0xE7, 0x00, 0x50, 0x50, 0x00]),                  # SWAPN 0
+    cont([P, P, P, 0xE8, 0x00, 0x50, 0x50, 0x50, 0x00]),         # EXCHANGE 0x00
+    cont([0xD1, 0x00, 0x00, 0x50, 0x00], data=[7] * 32),         # DATALOADN 0
+    # bases in which some instructions have a RANGE of heights (lo < hi), so that a backward probe meets
+    # targets whose bounds differ from its own in lo only / in hi only, and a forward probe is the SECOND
+    # forward jump to an instruction that already has bounds
+    cont([P, 0xE1, 0x00, 0x01, P, 0x5B, 0x00]),                  # heights [0,1] at the NOP and the STOP
+    cont([P, 0xE2, 0x00, 0x00, 0x01, P, 0x5B, 0x00]),            # the same through an RJUMPV
+    cont([P, P, 0xE1, 0x00, 0x00, 0x50, 0x00]),                  # RJUMPI +0, then POP needs the item
+    cont([0xE3, 0x00, 0x01, 0x00], types=[T(0, 0, 0)], more_codes=[[0xE4]]),              # CALLF 1
+    cont([P, 0xE1, 0x00, 0x03, 0xE5, 0x00, 0x01, 0x00], types=[T(0, NR, 0)], more_codes=[[0x00]]),   # JUMPF 1
+]
+ALPHA_FLOW_Q = [0x00, P, 0x50, 0xE0, 0xE1, 0xE2, 0x01, 0xFF, 0xFD]
+ALPHA_FLOW_T = [0x00, P, 0x50, 0xE0, 0xE1, 0xE2, 0x01, 0x02, 0xFF, 0xFD, 0xFC, 0xE3, 0xE6]
+
+
+def flow_consts(quick, deep=False):
+    """quick / thorough: strings over the run's alphabet up to 5 bytes + the explicit families + probes of BASES
+    (thorough: a 13-letter alphabet, and every structurally valid string of <= 4 bytes as a further probe base);
+    deep (thorough only): strings up to 6 bytes over the 9-letter alphabet, nothing else."""
+    given = ["OpcodeCases",
+             "ImmCases({0, 1, 2, 16, 17, 18, 32, 33, 255}, 0..5)",
+             "DataCases({0, 1, 2, 31, 32, 33, 255, 256, 65535}, {0, 1, 31, 32, 33, 34, 64})"]
+    bases = tset(BASES)
+    if not quick:
+        bases += (" \\cup {Flow1(x) : x \\in {y \\in Strings(%s, 4) : Analyse(Flow1(y), 1).why \\in {\"ok\", \"max_stack\"}}}"
+                  % vf.tla_set(ALPHA_FLOW_Q))
+    d = dict(Run='"flow"', Codes1="{}", Codes2="{}", Types1="{}", Types2="{}", SubLists="{}", Datas="{}",
+             Slack="{}", Planned="<<>>",
+             FlowAlpha=vf.tla_set(ALPHA_FLOW_Q if quick else ALPHA_FLOW_T), FlowN="5",
+             FlowGiven=" \\cup ".join(given), ProbeBases=bases, Pusher=str(P))
+    if deep:
+        d.update(FlowAlpha=vf.tla_set(ALPHA_FLOW_Q), FlowN="6", FlowGiven="{}", ProbeBases="{}")
+    return d
+
+
 def layout_consts(quick):
     if quick:
         return dict(Run='"layout"',
@@ -72,7 +143,7 @@ def layout_consts(quick):
                     Types2=tset([T(0, NR, 0), T(1, 1, 2)]),
                     SubLists=tset(["<<>>", "<<%s>>" % seq([170]), "<<%s, %s>>" % (seq(MINIMAL), seq([1, 2]))]),
                     Datas=tset(["<<>>", seq([4]), seq([0, 239])]),
-                    Slack="{0, 1}", Planned="<<>>")
+                    Slack="{0, 1}", Planned="<<>>", **NOFLOW)
     return dict(Run='"layout"',
                 Codes1="Strings({0, 254}, 2) \\cup {<<95, 80, 0>>}",
                 Codes2=tset(["<<>>", seq([254]), seq([0, 0]), seq([95, 80, 0])]),
@@ -81,7 +152,7 @@ def layout_consts(quick):
                 SubLists=tset(["<<>>", "<<%s>>" % seq([170]), "<<%s>>" % seq(MINIMAL),
                                "<<%s, %s>>" % (seq(MINIMAL), seq([1, 2]))]),
                 Datas=tset(["<<>>", seq([4]), seq([0, 239])]),
-                Slack="{0, 1}", Planned="<<>>")
+                Slack="{0, 1}", Planned="<<>>", **NOFLOW)
 
 
 ALPHA1 = [0x00, 0xFE, 0x5F, 0x50, 0x60, 0x01, 0xE4, 0xE5, 0x0C, 0x56, 0xFD]
@@ -91,7 +162,7 @@ SEC0 = [[0xE3, 0, 1, 0], [0xE5, 0, 1], [0x5F, 0xE3, 0, 1, 0], [0x5F, 0xE5, 0, 1]
 
 
 def code_consts(quick, two):
-    base = dict(Run='"code"', SubLists="{<<>>}", Datas="{<<>>}", Slack="{0}", Planned="<<>>")
+    base = dict(Run='"code"', SubLists="{<<>>}", Datas="{<<>>}", Slack="{0}", Planned="<<>>", **NOFLOW)
     if not two:
         base.update(Codes1="Strings(%s, %d)" % (vf.tla_set(ALPHA1), 3 if quick else 4),
                     Codes2="{<<>>}",
@@ -107,7 +178,22 @@ def code_consts(quick, two):
     return base
 
 
+FLOW_INPUTS = [[], [1], [1, 2], list(range(1, 33))]      # CALLDATASIZE 0 / 1 / 2 / 32: RJUMPI both ways, RJUMPV cases 0 1 2 and "beyond the table"
+FLOW_GASES = [21_000, 21_050, 60_000, 300_000]
+
+
 def edge_of(case):
+    if "flow" in case:
+        fl = case["flow"]
+        op = dict(op="decode", name=case["name"], bytes=case["bytes"], judge_decode=False, judge_dangling=False,
+                  judge_init=fl["init"] != "unknown", judge_runtime=fl["runtime"] != "unknown",
+                  inputs=FLOW_INPUTS, gases=FLOW_GASES)
+        post = dict(breaches=[])
+        if op["judge_init"]:
+            post["init"] = fl["init"]
+        if op["judge_runtime"]:
+            post["runtime"] = fl["runtime"]
+        return dict(hist=[], op=op, post=post)
     said = case["said"]
     op = dict(op="decode", name=case["name"], bytes=case["bytes"],
               judge_decode=said["verdict"] != "either",
@@ -140,6 +226,14 @@ def replay(ctx, res, run, name, binary):
             e = edge_of(case)
             if len(first) < 3:
                 first.append(e)
+            if "flow" in case:
+                fl = case["flow"]
+                for k in ("flow", "init:" + fl["init"], "runtime:" + fl["runtime"],
+                          "why_init:" + fl["why_init"], "why_runtime:" + fl["why_runtime"]):
+                    tally[k] = tally.get(k, 0) + 1
+                g.write(json.dumps(e, separators=(",", ":")))
+                g.write("\n")
+                continue
             s = case["said"]
             for k in ("name:" + case["name"] + ":" + s["verdict"], "decode:" + s["verdict"],
                       "init:" + s["init"], "runtime:" + s["runtime"],
@@ -152,7 +246,7 @@ def replay(ctx, res, run, name, binary):
             g.write("\n")
     run.lines = {"EDGE": first}
     run.files = {"EDGE": dst}
-    run.counts = {"EDGE": sum(v for k, v in tally.items() if k.startswith("decode:"))}
+    run.counts = {"EDGE": sum(v for k, v in tally.items() if k.startswith("decode:") or k == "flow")}
     stats = ctx.path("replay", name + ".stats.json")
     vf.replay_edges(ctx, res, run, "eof", ["stats=" + stats], name=name, binary=binary, expect_ops=["decode"])
     st = json.load(open(stats)) if os.path.exists(stats) else {}
@@ -166,15 +260,23 @@ def run(ctx, pid):
                 "ill-formed variants, every proper prefix}; code runs: every byte string of length <= N over an "
                 "11-letter instruction alphabet as a single code section x 5 type entries, every string over an "
                 "8-letter alphabet as second section x type entries behind a palette of first sections, plus planned "
-                "factory/initcode/runtime nests; distinct = distinct (container, writing) pairs")
+                "factory/initcode/runtime nests; flow run: every byte string of length <= 5 (thorough: also <= 6) over a "
+                "9/13-letter alphabet of jump opcodes, offset bytes and stack instructions as the only code section "
+                "(prefixes already rejected for good are not extended), probes of ~19 base programs (a conditional jump "
+                "aimed at every byte), every opcode byte behind enough / too few operands, DUPN/SWAPN/EXCHANGE/DATALOADN "
+                "immediate families -- each x every declared max_stack_height from 0 to the number of pushing bytes; "
+                "distinct = distinct (container, writing) pairs")
     binary = vf.cargo_build("eof")
     quick = ctx.quick
     tallies, stats = {}, {}
     plans = [("eof_layout", layout_consts(quick)),
              ("eof_code1", code_consts(quick, False)),
              ("eof_code2", code_consts(quick, True))]
+    plans.append(("eof_flow", flow_consts(quick)))
+    if not quick:
+        plans.append(("eof_flow6", flow_consts(quick, deep=True)))
     for name, consts in plans:
-        r = vf.tlc(ctx, "EofLayout", vf.cfg(consts, view=None, invariants=INV), name=name, workers=6,
+        r = vf.tlc(ctx, "EofLayout", vf.cfg(consts, view=None, invariants=INV_FLOW if name.startswith("eof_flow") else INV), name=name, workers=6,
                    timeout=1500, xss="64m", xmx="6g", stream=("CASE",), coverage=False)   # -coverage makes TLC run out of memory on the 20-byte literals
         tallies[name], stats[name] = replay(ctx, res, r, name, binary)
 
@@ -198,18 +300,30 @@ def run(ctx, pid):
             need.append(nm + " executions of accepted containers")
     if not any(k.startswith("exec_init_success") for k in stats["eof_code1"]):
         need.append("a creation transaction of an accepted initcode container that succeeds (planned nests)")
+    fl, fst = tallies["eof_flow"], stats["eof_flow"]
+    for k in ("runtime:accept", "init:accept", "why_init:init_halt",
+              "why_runtime:opcode", "why_runtime:truncated", "why_runtime:target_outside", "why_runtime:target_immediate",
+              "why_runtime:unreachable", "why_runtime:underflow", "why_runtime:backward", "why_runtime:falls_off",
+              "why_runtime:max_stack", "why_runtime:dataloadn", "why_runtime:callf_nonreturning", "why_runtime:subcontainer"):
+        if not fl.get(k):
+            need.append("flow " + k)
+    for k in ("exec_runtime_success", "exec_runtime_halt_oog", "exec_init_halt"):
+        if not any(x.startswith(k) for x in fst):
+            need.append("flow " + k)
     if need and not res.violations:
         # (with violations present the guards may fail as a consequence: report the violations instead)
         raise vf.ToolError("vacuous: missing %s" % need)
     res.exhaustive = True
     res.extra["cases"] = {n: {k: v for k, v in t.items() if not k.startswith("name:")} for n, t in tallies.items()}
+    res.extra["flow_bases_probed"] = len(BASES)
     res.extra["writings"] = sorted({k.split(":")[1] for k in lay if k.startswith("name:")})
     res.extra["harness_counts"] = stats
     res.assumptions += [
-        "PARTIAL: the validator's accept set is specified only for straight-line code without sub-containers; outside "
-        "that fragment revm's own verdict selects which containers are executed",
+        "PARTIAL: the validator's accept set is specified for containers without sub-containers; for containers with "
+        "sub-containers revm's own verdict selects which containers are executed",
         "'validation accepts => execution is safe' is exercised on the enumerated and planned containers only (small), "
-        "not proved; execution is judged for panics only, with 3 calldata values x 5 gas limits per accepted container",
+        "not proved; execution is judged for panics and impossible halts only, with 3-4 calldata values x 4-5 gas limits "
+        "per accepted container",
         "a section with inputs > max_stack_height may be rejected by decoding or by validation",
         "layout = the EIP revision implemented by this revm (2-byte container sizes, kind_data 0x04)"]
     return res
